@@ -152,6 +152,12 @@ macro_rules! impl_ops {
                         if s.to_string() != s.format_signature() {
                             return "SG-DISPLAY-MISMATCH".to_string();
                         }
+                        // the printed signature is the whole formatted signature under every format
+                        // spec: width / precision neither cut parameters or the return type off nor pad
+                        let f = s.format_signature();
+                        if format!("{:.4}", s) != f || format!("{:>70}", s) != f || format!("{:<3}", s) != f || format!("{:^90.2}", s) != f {
+                            return "SG-DISPLAY-MISMATCH(format spec)".to_string();
+                        }
                         format!(
                             "SG([{}],{},{})",
                             ps.join(";"),
